@@ -262,13 +262,13 @@ impl Property for C15 {
     fn cases(&self, tier: Tier) -> u64 {
         match tier {
             Tier::Quick => 10_000,
-            Tier::Thorough => 400_000,
+            Tier::Thorough => 3_000_000,
         }
     }
     fn min_nontrivial(&self, tier: Tier) -> u64 {
         match tier {
             Tier::Quick => 2_500,
-            Tier::Thorough => 100_000,
+            Tier::Thorough => 700_000,
         }
     }
     fn rule(&self) -> &'static str {
